@@ -342,6 +342,9 @@ func (ex *Exec) equal(fr *frame, t types.Type, x, y Value) *sym.Term {
 	case UnsafePtr:
 		yv := y.(UnsafePtr)
 		return c.Bool(xv.P == yv.P)
+	case RTypeVal:
+		yv, ok := y.(RTypeVal)
+		return c.Bool(ok && types.Identical(xv.T, yv.T))
 	case Iface:
 		yv, ok := y.(Iface)
 		if !ok {
